@@ -5,7 +5,7 @@
 From Coq Require Import Strings.String Strings.Byte.
 From Coq Require Import List Arith NArith ZArith Bool Lia Permutation.
 From Verif Require Import Base.Bytes Model.Strconv Model.UrlQuery Model.PlainCodec Model.FormCodec
-  Model.LibCodecs Model.MsgBody Proofs.MsgBodyProofs Proofs.StrconvProofs Proofs.UrlQueryProofs Proofs.PlainCodecProofs
+  Model.LibCodecs Model.MsgBody Model.EncBuffer Proofs.EncBufferProofs Proofs.MsgBodyProofs Proofs.StrconvProofs Proofs.UrlQueryProofs Proofs.PlainCodecProofs
   Proofs.FormCodecProofs Proofs.LibCodecsProofs.
 Import ListNotations.
 
@@ -270,6 +270,22 @@ Theorem C11_body_nil_pointer_refuted :
   exists id data, unmarshal_body_prefix T cu id data (DPtrNil T) None = Panic.
 Proof. exact unmarshal_nil_ptr_refuted. Qed.
 Print Assumptions C11_body_nil_pointer_refuted.
+
+(* ---- an encoder's result is a value ----
+   ThriftMarshal returns a slice of the buffer it wrote into.  With a buffer per call (the code of
+   /repo) the result reads back as the encoding whatever is encoded afterwards, any number of
+   times; a variant that recycles the buffer through a pool loses exactly that.  (In the codec
+   models above Marshal is a function to bytes, which presupposes this; the harness checks it on
+   the implementation by keeping every encoder result alive, uncopied, across later encodes.) *)
+Theorem C11_encode_result_is_a_value : forall enc h encs,
+  let (h1, r) := marshal_fresh enc h in read (later marshal_fresh encs h1) r = enc.
+Proof. exact fresh_result_is_a_value. Qed.
+Print Assumptions C11_encode_result_is_a_value.
+
+Theorem C11_pooled_buffer_refuted :
+  exists enc e2 h, let (h1, r) := marshal_pooled enc h in read (later marshal_pooled [e2] h1) r <> enc.
+Proof. exact pooled_result_overwritten. Qed.
+Print Assumptions C11_pooled_buffer_refuted.
 
 (* ---- non-vacuity ---- *)
 
